@@ -1,6 +1,7 @@
 (* C14 property theorems: statements only, each closed by [exact]. *)
 From Boltons Require Import Lib.Prelude Lib.C14_Text Spec.C14_Spec Model.C14_Model Gen.C14_Gen
-  Check.C14_Check Proofs.C14_Table Proofs.C14_Sh Proofs.C14_Cmd.
+  Check.C14_Check Proofs.C14_Table Proofs.C14_Sh Proofs.C14_Cmd Proofs.C14_Int Proofs.C14_Int2 Proofs.C14_Int3
+  Proofs.C14_Gzip.
 Open Scope N_scope.
 
 (* (T) obligation over the table regenerated from the source on every run:
@@ -39,3 +40,91 @@ Example C14_cmd_inhabited :
   args2cmd [[97; 32; 92]; []; [92; 34]] = [34; 97; 32; 92; 92; 34; 32; 34; 34; 32; 92; 92; 92; 34]
   /\ ms_split true [34; 97; 32; 92; 92; 34; 32; 34; 34; 32; 92; 92; 92; 34] = [[97; 32; 92]; []; [92; 34]].
 Proof. split; vm_compute; reflexivity. Qed.
+
+(* ---- integer ranges --------------------------------------------------------- *)
+(* format_int_list writes, for every list (any integers, any delimiter texts),
+   exactly the reference text spec_format ... *)
+Theorem C14_format_is_spec : forall delim rdelim L space,
+  format_int_list delim rdelim L space = spec_format (sep_of delim space) rdelim L.
+Proof. exact format_int_list_spec. Qed.
+Print Assumptions C14_format_is_spec.
+
+(* ... which is THE canonical range string of the set of L: ascending, non-empty
+   ranges, neighbouring ranges separated by at least one missing integer
+   (maximal ranges), covering exactly the members of L ... *)
+Theorem C14_canonical : forall delim rdelim L,
+  canonical_text_of delim rdelim L (spec_format delim rdelim L).
+Proof. exact spec_format_canonical. Qed.
+Print Assumptions C14_canonical.
+
+(* ... and a canonical list of ranges is determined by its members. *)
+Theorem C14_canonical_unique : forall r1 r2,
+  canonical r1 = true -> canonical r2 = true ->
+  (forall x, in_ranges r1 x = true <-> in_ranges r2 x = true) -> r1 = r2.
+Proof. exact canonical_unique. Qed.
+Print Assumptions C14_canonical_unique.
+
+(* sort_dedup L is the strictly increasing list of the members of L *)
+Theorem C14_sort_dedup : forall L, ssorted (sort_dedup L) /\ forall x, In x (sort_dedup L) <-> In x L.
+Proof. exact sort_dedup_spec. Qed.
+Print Assumptions C14_sort_dedup.
+
+(* the round trip, for non-negative integers, with or without delim_space, for
+   the default delimiters and any two distinct one-character delimiters that
+   are neither digits nor white space *)
+Theorem C14_int_roundtrip : forall d rd L space,
+  all_nonneg L = true -> delims_ok [d] [rd] = true ->
+  parse_int_list (format_int_list [d] [rd] L space) [d] [rd] = Ok (sort_dedup L).
+Proof. exact parse_format_roundtrip. Qed.
+Print Assumptions C14_int_roundtrip.
+
+(* complement_int_list: the canonical text of exactly the integers of the window
+   [max 0 start, stop) that the range string does not contain *)
+Theorem C14_complement : forall s start stop delim rdelim ints,
+  parse_int_list s delim rdelim = Ok ints ->
+  complement_int_list s start stop delim rdelim
+  = Ok (spec_format delim rdelim (spec_missing ints start (window_end ints start stop))).
+Proof. exact complement_spec. Qed.
+Print Assumptions C14_complement.
+
+Theorem C14_missing : forall ints start e x,
+  In x (spec_missing ints start e) <-> (Z.max 0 start <= x < e)%Z /\ ~ In x ints.
+Proof. exact spec_missing_in. Qed.
+Print Assumptions C14_missing.
+
+Theorem C14_int_ranges : forall s delim rdelim ints,
+  parse_int_list s delim rdelim = Ok ints -> all_nonneg ints = true ->
+  int_ranges_from_int_list s delim rdelim = Ok (spec_ranges ints).
+Proof. exact int_ranges_spec. Qed.
+Print Assumptions C14_int_ranges.
+
+Example C14_int_inhabited :
+  all_nonneg [5; 1; 2; 3; 9; 9; 10]%Z = true /\ delims_ok [c_comma] [c_minus] = true /\
+  format_int_list [c_comma] [c_minus] [5; 1; 2; 3; 9; 9; 10]%Z true
+  = [49; 45; 51; 44; 32; 53; 44; 32; 57; 45; 49; 48] /\
+  sort_dedup [5; 1; 2; 3; 9; 9; 10]%Z = [1; 2; 3; 5; 9; 10]%Z.
+Proof. repeat split; vm_compute; reflexivity. Qed.
+
+(* ---- gzip -------------------------------------------------------------------- *)
+(* The member framing written by gzip_bytes is undone by gunzip_bytes for every
+   byte string, level and clock value, given the law of the deflate coder
+   (self-delimiting and lossless) - zlib's theorem, an explicit hypothesis. *)
+Theorem C14_gzip_framing :
+  forall (deflate : list N -> N -> list N) (inflate : list N -> option (list N * list N)),
+  (forall b l rest, inflate (deflate b l ++ rest) = Some (b, rest)) ->
+  forall mtime b l, length mtime = 4%nat ->
+  gunzip_bytes inflate (gzip_bytes deflate mtime b l) = Ok b.
+Proof. exact gunzip_gzip. Qed.
+Print Assumptions C14_gzip_framing.
+
+(* ---- validation of the transcribed MS rules against the examples documented
+   by Microsoft (Parsing C++ command-line arguments); the last one is the
+   post-2008 doubled-quote behaviour ------------------------------------------ *)
+Example C14_ms_documented_examples :
+  ms_split true [34;97;98;99;34;32;100;32;101] = [[97;98;99];[100];[101]] /\
+  ms_split true [97;92;92;98;32;100;34;101;32;102;34;103;32;104] = [[97;92;92;98];[100;101;32;102;103];[104]] /\
+  ms_split true [97;92;92;92;34;98;32;99;32;100] = [[97;92;34;98];[99];[100]] /\
+  ms_split true [97;92;92;92;92;34;98;32;99;34;32;100;32;101] = [[97;92;92;98;32;99];[100];[101]] /\
+  ms_split true [97;34;98;34;34;32;99;32;100] = [[97;98;34;32;99;32;100]] /\
+  ms_split false [97;34;98;34;34;32;99;32;100] = [[97;98;32;99;32;100]].
+Proof. repeat split; vm_compute; reflexivity. Qed.
